@@ -1049,7 +1049,7 @@ def CStep.isName : CStep → Bool
   | .name _ => true
   | _ => false
 
-def renderStep : CStep → Str
+def renderCStep : CStep → Str
   | .name n => '/' :: n
   | .elem n e => '/' :: n ++ bracket e
   | .idx e => bracket e
@@ -1307,7 +1307,7 @@ theorem cont_steps (steps : List CStep) (root1 : Val) (P : Pos) (c : Cls) (ys : 
 termination_by (steps.length, 0)
 end
 
-theorem renderStep_later {s : CStep} (hs : s.later) : renderStep s = '/' :: stepTok s := by
+theorem renderStep_later {s : CStep} (hs : s.later) : renderCStep s = '/' :: stepTok s := by
   cases s with
   | name n => rfl
   | elem n e => rfl
@@ -1326,13 +1326,13 @@ theorem tokenize_stepTok {s : CStep} (hs : s.later) : tokenize (stepTok s) = [st
 
 /-- a text followed by the rendering of later steps -/
 theorem tokenize_then_steps : ∀ (steps : List CStep) (T : Str), (∀ x ∈ steps, x.later) →
-    tokenize (T ++ steps.flatMap renderStep) = tokenize T ++ steps.map stepTok
+    tokenize (T ++ steps.flatMap renderCStep) = tokenize T ++ steps.map stepTok
   | [], T, _ => by simp
   | s :: r, T, h => by
     have hs := h s (by simp)
     have ih := tokenize_then_steps r (stepTok s) (fun x hx => h x (by simp [hx]))
     rw [List.flatMap_cons, renderStep_later hs,
-      show T ++ ('/' :: stepTok s ++ r.flatMap renderStep) = T ++ '/' :: (stepTok s ++ r.flatMap renderStep) by simp,
+      show T ++ ('/' :: stepTok s ++ r.flatMap renderCStep) = T ++ '/' :: (stepTok s ++ r.flatMap renderCStep) by simp,
       tokenize_append_slash, ih, tokenize_stepTok hs]
     simp
 
@@ -1402,23 +1402,23 @@ theorem find_len_existing (cls : Cls) (kvs : List (Str × Val)) (q : Pos) (kcls 
 theorem tokenize_steps_path (q : Pos) (hp : PlainPos q) (s : CStep) (steps : List CStep)
     (hs : PlainKey s.nameOf) (hce : ∀ n e, s = .elem n e → CleanIdx e) (hidx : ∀ e, s ≠ .idx e)
     (hsteps : ∀ x ∈ steps, x.later) :
-    tokenize (slash ++ renderPos q ++ (s :: steps).flatMap renderStep) = mergedToks q ++ stepTok s :: steps.map stepTok := by
+    tokenize (slash ++ renderPos q ++ (s :: steps).flatMap renderCStep) = mergedToks q ++ stepTok s :: steps.map stepTok := by
   rw [List.flatMap_cons, ← List.append_assoc, tokenize_then_steps steps _ hsteps]
   cases s with
   | idx e => exact absurd rfl (hidx e)
   | name n =>
     have h1 := tokenize_render (q ++ [Seg.key n]) (hp.append ⟨hs, trivial⟩)
     rw [mergedToks_append_key] at h1
-    have : slash ++ renderPos q ++ renderStep (.name n) = '/' :: renderPos (q ++ [Seg.key n]) := by
-      simp [renderStep, renderPos, renderSeg, slash]
+    have : slash ++ renderPos q ++ renderCStep (.name n) = '/' :: renderPos (q ++ [Seg.key n]) := by
+      simp [renderCStep, renderPos, renderSeg, slash]
     rw [this, h1]
     simp [mergedToks, stepTok]
   | elem n e =>
     have hs' : PlainKey n := hs
     have h1 := tokenize_elem_path q hp hs' (hce n e rfl) [] (by simp)
-    have : slash ++ renderPos q ++ renderStep (.elem n e)
+    have : slash ++ renderPos q ++ renderCStep (.elem n e)
         = slash ++ renderPos q ++ slash ++ (n ++ bracket e) ++ renderPos (([] : List Str).map Seg.key) := by
-      simp [renderStep, renderPos, slash]
+      simp [renderCStep, renderPos, slash]
     rw [this, h1]
     simp [stepTok]
 
@@ -1432,11 +1432,11 @@ theorem setItem_create_steps (cls : Cls) (kvs : List (Str × Val)) (q : Pos) (kc
     (hs : PlainKey s.nameOf) (hidx : ∀ e, s ≠ .idx e) (hsteps : ∀ x ∈ steps, x.later) (hg : GOk (s :: steps))
     (hcreate : createIn (.dict kcls nkvs) (s :: steps) v = some cur')
     (hset : setAt (.dict cls kvs) q cur' = some t') (hf : fuel ≥ 4 * (q.length + 1)) :
-    setItem fuel (.dict cls kvs) (slash ++ renderPos q ++ (s :: steps).flatMap renderStep) v = (t', .ok ()) := by
+    setItem fuel (.dict cls kvs) (slash ++ renderPos q ++ (s :: steps).flatMap renderCStep) v = (t', .ok ()) := by
   have hlen := mergedToks_length_le q
-  have hqm : startsWith (slash ++ renderPos q ++ (s :: steps).flatMap renderStep) ['?'] = false := by
+  have hqm : startsWith (slash ++ renderPos q ++ (s :: steps).flatMap renderCStep) ['?'] = false := by
     simp [slash, startsWith, List.append_assoc]
-  have hpc : hasPathChar (slash ++ renderPos q ++ (s :: steps).flatMap renderStep) = true := by
+  have hpc : hasPathChar (slash ++ renderPos q ++ (s :: steps).flatMap renderCStep) = true := by
     simp [hasPathChar, slash]
   -- a write of `X` into the slot `nameOf s`, seen at `q`
   have hslot : ∀ X, setAt (.dict cls kvs) (q ++ [Seg.key s.nameOf]) X
